@@ -196,6 +196,14 @@ def check_lsf_bounds(case):
     a, invf = A_INVF[case["ell"]]
     ha, hk = _hargs(case, hemi, ell)
     lsf = gd.line_sf(z1, e1, n1, z2, e2, n2, *ha, **hk)
+    # the projection named explicitly: the shipped UTM object, and a projection of the caller's own with the same five numbers
+    c_ = repo.mod("geodepy.constants")
+    for form, prj in (("the shipped utm object", c_.utm), ("an equal-valued Projection of the caller's", c_.Projection(500000, 10000000, 0.9996, 6, -177))):
+        lsf_p = gd.line_sf(z1, e1, n1, z2, e2, n2, hemi, ell, prj) if form.startswith("the") else \
+            gd.line_sf(z1, e1, n1, z2, e2, n2, hemisphere=hemi, ellipsoid=ell, projection=prj)
+        if not abs(lsf_p - lsf) <= 1e-12:
+            raise Fail("line_sf differs when the UTM projection is given explicitly as %s" % form, expected=lsf, observed=lsf_p,
+                       bucket="line_sf projection form")
     if z2 != z1:
         p2 = cv.grid2geo(z2, e2, n2, hemi, ell)
         g = cv.geo2grid(p2[0], p2[1], z1, ell)
